@@ -88,6 +88,24 @@ Lemma parse_paren_bounded :
   forallb (fun a => forallb (fun b => parse_agrees (paren_l a b) && parse_agrees (paren_r a b)) bin_ops) bin_ops = true.
 Proof. vm_compute. reflexivity. Qed.
 
+(* nested conditionals (conditional-expression: logical-OR-expression ? expression : conditional-expression)
+   in condition-, then- and else-position, with binary operators b1 b2 of every priority around them *)
+Definition N (z : Z) := GNum false z.
+Definition tern_templates (b1 b2 : string) : list (list gtok) :=
+  [ (* else-chains: a ? b : c ? d : e ? f : g *)
+    [N 1; GSym "?"; N 2; GSym b1; N 3; GSym ":"; N 4; GSym "?"; N 5; GSym b2; N 6; GSym ":"; N 7; GSym "?"; N 8; GSym ":"; N 9];
+    (* then-nesting: a ? b ? c ? d : e : f : g *)
+    [N 1; GSym "?"; N 2; GSym "?"; N 3; GSym "?"; N 4; GSym ":"; N 5; GSym b1; N 6; GSym ":"; N 7; GSym b2; N 8; GSym ":"; N 9];
+    (* binary operators before the condition and after the else part, nested both ways *)
+    [N 1; GSym b1; N 2; GSym "?"; N 3; GSym b2; N 4; GSym "?"; N 5; GSym ":"; N 6; GSym ":"; N 7; GSym b1; N 8; GSym "?"; N 9; GSym ":"; N 10; GSym b2; N 11];
+    (* a b1 (c ? d : e) must keep its parentheses; condition position needs them too *)
+    [N 1; GSym b1; GSym "("; N 2; GSym "?"; N 3; GSym ":"; N 4; GSym ")"; GSym b2; N 5; GSym "?"; N 6; GSym ":"; N 7; GSym "?"; N 8; GSym ":"; N 9];
+    [GSym "("; N 1; GSym "?"; N 2; GSym ":"; N 3; GSym ")"; GSym "?"; N 4; GSym b1; N 5; GSym ":"; N 6; GSym b2; N 7; GSym "?"; N 8; GSym ":"; N 9] ].
+
+Lemma parse_ternary_bounded :
+  forallb (fun a => forallb (fun b => forallb parse_agrees (tern_templates a b)) bin_ops) bin_ops = true.
+Proof. vm_compute. reflexivity. Qed.
+
 Lemma parse_agrees_sound ts : parse_agrees ts = true ->
   exists e, g_parse 100 ts = Some e /\ parse_line 100 (map tok_of ts) = Ok (tree_of e).
 Proof.
